@@ -37,8 +37,11 @@ PScan(cfg, N, st, acc) ==
   THEN LET data == SubSeq(st.buf, st.proc + 1, t)
            r == ImplRun(cfg, st.q, st.hdr, N, data)
            quirky == MsgScan(data, 1).kind = "free"
+           \* ImplRun leaves the number of a syntax error open (a wild card); once such an entry sits in an error
+           \* queue, the length of a later SYSTem:ERRor? response is not known here either
+           wild == cfg.K > 0 /\ \E i \in 1..Len(r.evs) : r.evs[i].e = "err" /\ r.evs[i].n = ANYN
            ev == Skel(r.evs, 1) \o (IF HasOut(r.evs) THEN <<[e |-> "write"], [e |-> "aflush"]>> ELSE <<>>)
-           st2 == [st EXCEPT !.q = r.q, !.unk = @ \/ r.sloppy \/ quirky, !.rd = t,
+           st2 == [st EXCEPT !.q = r.q, !.unk = @ \/ r.sloppy \/ quirky \/ wild, !.rd = t,
                              !.proc = IF r.rem # 0 THEN st.proc + Len(data) - r.rem ELSE t,
                              !.hdr = IF r.rem # 0 THEN r.path ELSE <<>>]
        IN PScan(cfg, N, st2, acc \o ev)
